@@ -570,6 +570,11 @@ def judge_stage(ctx, stream, cur_t, rnd):
         if s is None or s[1] is bool:
             return None
         body = s[0]
+        # filters that are no numbers either: a collection, a collection annotated without its item type, a lambda, a function
+        other = ["(lambda q_: q_ > 1)", "abs"] + ([f"{v}.things()", f"{v}.jets()", f"{v}.bare()", f"{v}.rawbox()"] if cur_t is NS["Event"] else [])
+        if rnd.random() < 0.4:
+            body = rnd.choice(other)
+            ctx.count("non-boolean-filter-that-is-no-number")
     text = f"lambda {v}: {body}"
     key = f"{cur_t}|{op}|{text}"
     witness = {"op": op, "lambda": text, "stream_type": str(cur_t), "expected": str(exp_t)}
